@@ -73,3 +73,65 @@ func vhAdmissionConvert() {
 	vReach("built")
 	vSameBytes(ext.Value, vTLV(0x30, vCat(topRef, vTLV(0x30, contents))), "admission extension value differs from the Common PKI AdmissionSyntax of the configured content")
 }
+
+// vhProfessionInfosConvert: C16, "absent optional parts omitted" for the
+// list of profession infos of one admission: 1..M infos, each with or without
+// addProfessionInfo (symbolic bytes), registration number, profession OID and
+// own naming authority - every combination, so that nothing leaks from one
+// list element into the next. The v1 conversion must hand exactly the
+// configured members to the encoder (whose member subsets are decided by
+// vhProfessionInfo in package cert).
+func vhProfessionInfosConvert() {
+	M := vParam("M", 2)
+	m := vChoose("m", M) + 1
+	sa := SingleAdmission{}
+	type exp struct {
+		add    []byte
+		hasAdd bool
+		reg    string
+		oids   int
+		naURL  string
+		item   string
+	}
+	want := make([]exp, m)
+	for k := 0; k < m; k++ {
+		nm := vName("pi", k)
+		pi := ProfessionInfo{ProfessionItems: []string{vAscii(nm+".item", 1)}}
+		want[k].item = pi.ProfessionItems[0]
+		if vChoose(nm+".add", 2) == 1 {
+			want[k].add = vBytes(nm+".addbytes", 2)
+			want[k].hasAdd = true
+			pi.AddProfessionInfo = binaryPrefix + vB64(want[k].add)
+		}
+		if vChoose(nm+".reg", 2) == 1 {
+			pi.RegistrationNumber = "r" + vName("", k)
+			want[k].reg = pi.RegistrationNumber
+		}
+		if vChoose(nm+".oidna", 2) == 1 {
+			pi.ProfessionOids = []string{"1.3.4"}
+			want[k].oids = 1
+			pi.NamingAuthority = NamingAuthority{Url: "u" + vName("", k)}
+			want[k].naURL = pi.NamingAuthority.Url
+		}
+		sa.ProfessionInfos = append(sa.ProfessionInfos, pi)
+	}
+	out, err := sa.convert()
+	vAssert(err == nil && out != nil, "conversion of a valid admission failed")
+	if err != nil || out == nil {
+		return
+	}
+	vReach("converted")
+	vAssert(len(out.ProfessionInfos) == m, "number of profession infos changed")
+	for k := 0; k < m && k < len(out.ProfessionInfos); k++ {
+		got := out.ProfessionInfos[k]
+		if want[k].hasAdd {
+			vSameBytes(got.AddProfessionInfo, want[k].add, "addProfessionInfo differs from the configured bytes")
+		} else {
+			vAssert(len(got.AddProfessionInfo) == 0, "a profession info without addProfessionInfo received one")
+		}
+		vAssert(got.RegistrationNumber == want[k].reg, "registration number of a profession info differs from the configured one")
+		vAssert(len(got.ProfessionOids) == want[k].oids, "profession OIDs of a profession info differ from the configured ones")
+		vAssert(got.NamingAuthority.URL == want[k].naURL && len(got.NamingAuthority.Oid) == 0 && got.NamingAuthority.Text == "", "naming authority of a profession info differs from the configured one")
+		vAssert(len(got.ProfessionItems) == 1 && got.ProfessionItems[0] == want[k].item, "profession items differ from the configured ones")
+	}
+}
